@@ -280,6 +280,8 @@ def empty_selected_zone(case):
 
 
 def key_for(case, what=None):
+    if case['fn'] == 'stats' and what in ('std', 'var') and c02.sumsq_overflow_class(dict(case, backend='dask'), what):
+        return K_SQ
     if c02.has_neg_inf_zone(case):
         return K_NINF
     if case['fn'] == 'stats':
